@@ -50,6 +50,21 @@ CHECKS = {
    text="The complete product of the format variants Java/C++ writers use and a family of small abstract states is encoded by the harness's own encoder and fed to the real readers (~54k images quick): HLL lg_k {4,5,8,10} x 3 types x {list of every length 0..7, set of every size 8..24/25..48, arrays: 5 base patterns x 16 exception subsets x 4 exception values} x compact/updatable coupon tables and aux tables (two table sizes) x compact flag in array mode x out-of-order flag x extra flag bits; Theta serial versions 1-4 x {empty, single, exact, estimating} x ordered/unordered x single-item flag x seeds (+ wrong seed rejected); Bloom exact/dirty counts; Count-Min u64/i64 readers; Frequent Items i64/String x preLongs high bits x empty-flag variants; CPC uncompressed flag rejected. Oracle: Ok, hook dump / accessors equal the encoded state, estimates as the state requires (HIP value in order, composite when out of order), further updates and unions behave as the registers require, re-serialization decodes to the same state.",
    note="Encoders are my transcription of the Java/C++ writers (DESIGN Appendix A). t-digest float/double/reference encodings are attached with the t-digest codec (see evidence counters).",
    design="3/C13"),
+ "C08": dict(
+   technique="finite-domain enumeration of the configuration product x explicit-state BFS (key = table bytes + total + truths) on the real CountMinSketch<T> against an exact model table",
+   text="For every configuration of a Latin-square cover (quick: 128; thorough: the complete 2304 = hashes 1..8 x buckets {3,4,5,7,8,16,17,64,512} x 4 seeds x 8 counter types) a BFS to depth 4 (5-6 on subsets) over update_with_weight(i,w) for 6 colliding items x w in {1,2,T::MAX/4} (overflowing ops refused by the model), merge(pool[j]), halve, decay(0.5|1.0|0.999). In every state the table parsed from serialize() equals the model table computed with the reference MurmurHash (row seed = murmur(le64(r),seed).h1, bucket = h1 % buckets), total_weight == sum |w|, truth <= estimate == min of the item's model counters <= total for all 256 items of the query domain, lower_bound == estimate, upper_bound == estimate + floor(e/buckets*total) (saturating), merge == element-wise sum, halve/decay keep estimate >= the integer-scaled truth; plus the deterministic confidence clause over the entire 4096-item query domain for 432 (type,hashes,buckets,seed) points.",
+   note="The probabilistic confidence clause is decided only as a complete count over a fixed finite stream/query domain (necessary condition).",
+   design="3/C08"),
+ "C09": dict(
+   technique="finite-domain enumeration of the configuration product x explicit-state BFS (key = bit array + obligation set) on the real BloomFilter against a reference bit model",
+   text="For the complete product 12 sizes {1,2,63,64,65,100,127,128,129,1000,4096,65536} x num_hashes 1..16 x seeds {9001,0,u64::MAX} (576 configurations) a BFS to depth 4 (6-7 thorough) over insert / contains_and_insert of 4 items of three kinds (u64, &str, byte slice), union/intersect with a pool of 4 filters, invert, reset, serialize->deserialize. In every state the bit array parsed from serialize() equals the reference model (positions ((h0+i*h1)>>1) mod capacity with reference XXH64), bits_used == popcount, every obligated item is contained (direct inserts, either union operand, both intersect operands), contains_and_insert returns the previous contains, is_empty iff no bit set; builder formulas over a grid and the deterministic FPP clause (complete disjoint query domain of 200000 items for 3 (n,p) points).",
+   note="The FPP clause is decided only as a complete count over a fixed finite query domain (necessary condition).",
+   design="3/C09"),
+ "C17": dict(
+   technique="the explicit-state / deviation-bounded family explorers re-run under catch_unwind in two builds (release; chk = debug-assertions + overflow-checks as a child process) + configuration extremes",
+   text="Every transition of the reduced-bound C02..C10 explorations (models generate only operations whose documented preconditions hold) is executed with the update, every accessor and the oracle inside catch_unwind, once in the release build and once in the chk build (debug assertions and arithmetic overflow checks on); any panic originating in datasketches is a violation with the op list as replay. Added extremes: HLL lg_k 4 and 21 x 3 types through every promotion with an Hll4 cur_min shift while the aux map is populated; CPC lg_k 4 (whole life, crafted pairs), 21 and 22 (hashed items through Sparse/Hybrid/Pinned, serialize+deserialize at each flavor change; thorough adds 12, 23, 26); the hook-less families at their minimum configurations.",
+   note="Panics provoked by violating a documented precondition are excluded by construction of the models (coupon values 1..=63, CPC coupon cap, counter totals within range).",
+   design="3/C17"),
 }
 NOT_BUILT = "check not built yet in this session (planned in DESIGN.md section 3); not claimed until it exists"
 def main():
